@@ -12,6 +12,7 @@ automatic evaluation — vs Z3.  A different truth value or an exception is a fa
 """
 from __future__ import annotations
 
+import json
 import os
 from typing import Any, Dict, List, Optional, Tuple
 
@@ -352,6 +353,41 @@ def z3_decide(e) -> Optional[bool]:
     return None  # unspecified (both sat, e.g. division by zero) or unknown
 
 
+def z3_decide_all(exprs) -> Tuple[List[Optional[bool]], List[int]]:
+    """z3_decide for every expression, in a forked child: Z3 4.11.2 itself dies (SIGSEGV in Z3_simplify /
+    Z3_solver_assert) on some ground terms, e.g. nested (_ re.loop 0 1).  A term on which the oracle dies has no
+    oracle verdict (None, index reported); the child is restarted behind it."""
+    res: List[Optional[bool]] = [None] * len(exprs)
+    crashed: List[int] = []
+    start = 0
+    while start < len(exprs):
+        r, w = os.pipe()
+        pid = os.fork()
+        if pid == 0:  # child: only computes and writes verdicts
+            try:
+                os.close(r)
+                with os.fdopen(w, "w") as f:
+                    for i in range(start, len(exprs)):
+                        v = z3_decide(exprs[i])
+                        f.write(f"{i} {'T' if v is True else 'F' if v is False else 'N'}\n")
+                        f.flush()
+            finally:
+                os._exit(0)
+        os.close(w)
+        last = start - 1
+        with os.fdopen(r) as f:
+            for line in f:
+                parts = line.split()
+                if len(parts) == 2 and parts[1] in "TFN":
+                    last = int(parts[0])
+                    res[last] = {"T": True, "F": False, "N": None}[parts[1]]
+        os.waitpid(pid, 0)
+        if last + 1 < len(exprs):
+            crashed.append(last + 1)
+        start = last + 2
+    return res, crashed
+
+
 def isla_decisions(term, gen: Gen) -> Dict[str, Any]:
     """the three places where ISLa decides an instantiated atom"""
     import z3
@@ -408,15 +444,19 @@ def sig(term, entry: str, kind: str) -> str:
 def check_terms(ctx: Ctx, cases, origin: str):
     reqs = [[Atom("c05"), Atom("eval"), t_sexp(subst(t, g.inst))] for t, g in cases]
     model = drive(reqs)
-    for (t, g), m in zip(cases, model):
+    exprs = [t_z3(subst(t, g.inst)) for t, g in cases]
+    zs, crashed = z3_decide_all(exprs)
+    for i in crashed:
+        ctx.count("oracle", "z3-died-on-term")
+        if len(ctx.notes) < 20:
+            ctx.notes.append("Z3 (the oracle) crashed on " + " ".join(exprs[i].sexpr().split()) + " - no oracle verdict for it")
+    for (t, g), m, expr, z in zip(cases, model, exprs, zs):
         ctx.evaluations += 1
         ops = ops_of(t)
         if ops:
             ctx.nontriv(repr(subst(t, g.inst)))
         for o in ops:
             ctx.count("operator", o)
-        expr = t_z3(subst(t, g.inst))
-        z = z3_decide(expr)
         mv = None if isinstance(m, Atom) and m == "unspecified" else (bool(m) if isinstance(m, bool) else Atom("non-bool"))
         ctx.count("z3_verdict", str(z))
         if z is None:
@@ -468,6 +508,11 @@ def run(ctx: Ctx):
         return "infra"
     quick = ctx.tier == "quick"
     n = 700 if quick else 12000
+    cdir = os.path.join(ROOT, "corpus", "C05")
+    for fn in sorted(os.listdir(cdir)) if os.path.isdir(cdir) else []:
+        if fn.endswith(".json"):
+            o = json.load(open(os.path.join(cdir, fn), encoding="utf-8"))
+            check_terms(ctx, [(_from_json(o["term"]), ReplayGen(o.get("instantiation") or {}))], "corpus/" + fn)
     cases = []
     for i in range(n):
         g = Gen(ctx.rng, ctx.rng.choice([0, 1, 2, 2]))
@@ -489,5 +534,23 @@ def run(ctx: Ctx):
     )
 
 
+def _from_json(x):
+    """terms are tuples (operator first) with lists for n-ary arguments; JSON turned both into lists"""
+    if isinstance(x, list):
+        if x and isinstance(x[0], str):
+            return tuple(_from_json(y) for y in x)
+        return [_from_json(y) for y in x]
+    return x
+
+
+class ReplayGen:
+    def __init__(self, inst):
+        self.inst = dict(inst)
+        self.vars = sorted(self.inst)
+        self.num_vars = []
+
+
 def replay(ctx: Ctx, obj):
-    print("re-run ./check C05 with seed", obj.get("seed"), "; failing atom:", obj.get("z3"), "instantiation:", obj.get("instantiation"))
+    t = _from_json(obj["term"])
+    print("replaying atom:", obj.get("z3"), "instantiation:", obj.get("instantiation"))
+    check_terms(ctx, [(t, ReplayGen(obj.get("instantiation") or {}))], "replay")
